@@ -520,6 +520,37 @@ type roleDesc struct {
 	Canon   string                    // full name the rules use
 	Results string                    // result tuple, types.TypeString with package paths
 	Pred    func(f *ssa.Function) bool // further requirement (nil = none)
+	// ResultsOK replaces the exact Results match (result shape up to packaging, e.g. a small result struct)
+	ResultsOK func(f *ssa.Function) bool
+	// Strict: the canonical name only counts while the function of that name still plays the role (satisfies Pred);
+	// a thin wrapper kept under the old name does not
+	Strict bool
+}
+
+// yieldsDocAndRoot: the results carry an *etree.Document and an *etree.Element — as separate results or as fields of one
+// result struct — plus an error.
+func yieldsDocAndRoot(rs *types.Tuple) bool {
+	doc, el, er := false, false, false
+	see := func(t types.Type) {
+		switch types.TypeString(t, nil) {
+		case "*github.com/beevik/etree.Document":
+			doc = true
+		case "*github.com/beevik/etree.Element":
+			el = true
+		case "error":
+			er = true
+		}
+	}
+	for i := 0; i < rs.Len(); i++ {
+		t := rs.At(i).Type()
+		see(t)
+		if st, ok := t.Underlying().(*types.Struct); ok {
+			for j := 0; j < st.NumFields(); j++ {
+				see(st.Field(j).Type())
+			}
+		}
+	}
+	return doc && el && er
 }
 
 var fnAlias = map[string]string{} // actual full name -> canonical full name (reset per load)
@@ -573,7 +604,8 @@ func (p *Prog) discoverRoles() {
 	fnAlias = map[string]string{}
 	roles := []roleDesc{
 		{Canon: "(*" + modPath + ".SAMLServiceProvider).getDecryptCert", Results: "(*crypto/tls.Certificate, error)"},
-		{Canon: modPath + ".parseResponse", Results: "(*github.com/beevik/etree.Document, *github.com/beevik/etree.Element, error)"},
+		{Canon: modPath + ".parseResponse", ResultsOK: func(f *ssa.Function) bool { return yieldsDocAndRoot(f.Signature.Results()) },
+			Pred: func(f *ssa.Function) bool { return callsDirectly(f, "(*github.com/beevik/etree.Document).ReadFromBytes", 0) }, Strict: true},
 		{Canon: modPath + ".maybeDeflate", Results: "(error)", Pred: func(f *ssa.Function) bool { return callsDirectly(f, "compress/flate.NewReader", 0) }},
 		{Canon: "(*" + modPath + ".SAMLServiceProvider).decryptAssertions", Results: "(error)", Pred: func(f *ssa.Function) bool {
 			return callsDirectly(f, "(*"+modPath+"/types.EncryptedAssertion).DecryptBytes", 0) && callsDirectly(f, "github.com/russellhaering/goxmldsig/etreeutils.NSFindIterate", 0)
@@ -581,14 +613,20 @@ func (p *Prog) discoverRoles() {
 	}
 	for _, r := range roles {
 		if f := p.fnIndex[r.Canon]; f != nil {
-			continue
+			if !r.Strict || r.Pred == nil || r.Pred(f) {
+				continue
+			}
 		}
 		var cands []*ssa.Function
 		for _, f := range p.LibFns {
 			if f.Parent() != nil || f.Object() == nil || f.Object().Exported() || f.Synthetic != "" {
 				continue
 			}
-			if types.TypeString(f.Signature.Results(), nil) != r.Results {
+			if r.ResultsOK != nil {
+				if !r.ResultsOK(f) {
+					continue
+				}
+			} else if types.TypeString(f.Signature.Results(), nil) != r.Results {
 				continue
 			}
 			if r.Pred != nil && !r.Pred(f) {
